@@ -1,7 +1,7 @@
 SPECIFICATION Spec
 CONSTANTS
-  Labels = {"n1","n2","n3","n4"}
-  Weights = {1}
+  Labels = {"n1","n2","n3"}
+  Weights = {1,2}
   MaxScore = 2
 INVARIANT Inv
 PROPERTY RemoveOnlyRemoves AddOnlyInserts
